@@ -40,7 +40,7 @@ RULE = (
     "different kinds, one of them after >=2 dispatches and followed by a valid "
     "dispatch."
 )
-BUDGET = {"quick": 250, "thorough": 1500}
+BUDGET = {"quick": 250, "thorough": 3000}
 ASSUMPTIONS = [
     "any exception type counts as 'raises' (the statement does not name one)",
 ]
